@@ -51,7 +51,10 @@ RULE = ('bounds texts: corpus of minimal strings, texts drawn from the grammar o
         'lie 2^-21 … 2^-30 away from a cell edge (as exact decimal bounds, GeoJSON text, GeoJSON file); point tables '
         'with free-text columns before / between / after the coordinate columns holding the characters that are '
         'special to some CSV dialect (# ; , quotes, tabs, outer blanks, line breaks, non-ASCII), written in the '
-        'dialects pandas writes. Non-trivial: a '
+        'dialects pandas writes; point tables of hundreds / thousands (thorough: tens of thousands) of rows under '
+        'every policy, the rows outside the model spread from the first to the last tenth of the file (recorded as '
+        'row count + seed + missing rows, rebuilt from the dataset\'s ground truth), the row numbers along the point '
+        'dimension compared on their own. Non-trivial: a '
         'text that is not the bare `1,2,3,4` shape (has a sign / fraction / underscore / blank / non-ASCII digit '
         'or is a near miss), a geometry-argument scenario that reaches the JSON or file branch, a command run; '
         'distinct = distinct (operation, text / scenario).')
@@ -474,6 +477,29 @@ def compare_datasets(lib, path: pathlib.Path):
     return None
 
 
+def row_numbers_differ(lib, path: pathlib.Path, dim: str):
+    """the coordinate along the point dimension says which row of the table each extracted point is: a description
+    of where the file departs from the library result in it, or None if it does not"""
+    import numpy as np
+    import xarray as xr
+    try:
+        with xr.open_dataset(path) as cli:
+            got = None if dim not in cli.variables else np.asarray(cli[dim].values)
+        want = None if dim not in lib.variables else np.asarray(lib[dim].values)
+        if got is None or want is None:
+            return None if got is want else f'`{dim}` coordinate: file has {"none" if got is None else "one"}, library has {"none" if want is None else "one"}'
+        if got.shape != want.shape:
+            return f'`{dim}` has {got.shape[0] if got.ndim else 0} values in the file, {want.shape[0] if want.ndim else 0} in the library result'
+        bad = np.flatnonzero(got != want)
+        if bad.size == 0:
+            return None
+        i = int(bad[0])
+        return (f'row numbers (`{dim}`) differ at {bad.size} of {got.size} positions, first at position {i}: '
+                f'file says row {got[i].item()!r}, library says row {want[i].item()!r}')
+    except Exception:  # noqa -- the general comparison has already said that the file differs
+        return None
+
+
 def geometry_files(path: pathlib.Path) -> dict:
     """all files the geometry writers produce for an output path (shapefile: .shp .shx .dbf .prj)"""
     out = {}
@@ -551,7 +577,7 @@ def eval_cmd(ctx, case: dict, work: pathlib.Path):
     scenario = case.get('scenario', 'ok')
     try:
         inp = d / 'in.nc'
-        build_dataset(case['recipe'], inp)
+        built = build_dataset(case['recipe'], inp)
         out_name = case.get('out', 'out.nc')
         outp = d / 'result' / out_name
         outp.parent.mkdir()
@@ -617,7 +643,10 @@ def eval_cmd(ctx, case: dict, work: pathlib.Path):
         elif cmd == 'extract-points':
             csv = d / 'points.csv'
             cols = case.get('columns', ['lon', 'lat'])
-            df = pd.DataFrame(case['table'])
+            # a long table is recorded as (row count, seed, rows outside the model) and rebuilt from the generator's
+            # ground truth of the dataset
+            table = case['table'] if 'table' in case else GX.long_points_table(case['long_table'], built.polys, cols)
+            df = pd.DataFrame(table)
             if case.get('table_order'):
                 df = df[list(case['table_order'])]      # replay files are written with sorted keys
             if scenario == 'missing-csv':
@@ -739,6 +768,10 @@ def eval_cmd(ctx, case: dict, work: pathlib.Path):
                     diff = compare_datasets(lib_result, outp)
                 if diff is not None:
                     sig = f'cli-{cmd}-differs'
+                    if cmd == 'extract-points':
+                        rows = row_numbers_differ(lib_result, outp, case.get('dim') or 'point')
+                        if rows:
+                            sig, diff = 'cli-extract-points-row-numbers', rows + ' | ' + diff
                     if cmd == 'clip' and case.get('geom_how') == 'bounds' and prefix_misread(case['bounds_text']):
                         sig = 'bounds-prefix-match'
                     ctx.oracle_fail(sig, desc, f'`emsarray {shown}` wrote something else than the library call returns: {diff}')
@@ -1160,6 +1193,31 @@ def extra_command_cases(ctx) -> list:
     return cases
 
 
+def long_table_cases(ctx) -> list:
+    """point files of hundreds / thousands (thorough: tens of thousands) of rows, under every policy, with the rows
+    outside the model spread over the whole file (a row in the first and one in the last tenth): the output must be
+    the library result for the whole table, row numbers included, and a miss anywhere in the file must fail the run"""
+    rng = ctx.rng
+    cases = []
+    classes = ['thousands', 'thousands+', 'thousands', 'hundreds']
+    if ctx.thorough:
+        classes += ['thousands+', 'thousands', 'hundreds', 'ten-thousands']
+    classes = classes * ctx.mult
+    plans = [(None, 0), ('drop', 3), ('fill', 2), ('error', 1), ('drop', 1), ('error', 0), ('fill', 4), (None, 1)]
+    for i, rows in enumerate(classes):
+        policy, n_miss = plans[i % len(plans)]
+        conv = rng.choice(G.CONVS)
+        rec = dataset_recipe(rng, conv, 'quick', for_clip=False)
+        cols = rng.choice([['lon', 'lat'], ['lon', 'lat'], ['x', 'y']])
+        c = {'k': 'cmd', 'cmd': 'extract-points', 'recipe': rec, 'columns': cols, 'policy': policy,
+             'long_table': GX.long_points_spec(rng, rows, n_miss), 'dim': rng.choice([None, None, 'station'])}
+        if n_miss and policy in (None, 'error'):
+            c.update(scenario='points-miss', step='extract-dataframe', failure='command')
+        cases.append(c)
+        ctx.count(f'cmd:extract-points:rows:{rows}')
+    return cases
+
+
 # ---------------------------------------------------------------------------
 
 def run(ctx) -> None:
@@ -1168,7 +1226,7 @@ def run(ctx) -> None:
     work = pathlib.Path(tempfile.mkdtemp(prefix='c20-'))
     items = []
     try:
-        cases = table_cases(ctx) + text_cases(ctx) + geom_cases(ctx) + command_cases(ctx) + extra_command_cases(ctx)
+        cases = table_cases(ctx) + text_cases(ctx) + geom_cases(ctx) + command_cases(ctx) + extra_command_cases(ctx) + long_table_cases(ctx)
         real_ctx, ctx = ctx, Flagging(ctx)
         for case in cases:
             before = ctx.flags
